@@ -3,6 +3,12 @@
 //!
 //! fields: nodes `id>dep,dep;id>;…` | roots (`*` or `a,b|c|-`) | layout seed (0 = plain)
 //! observation: `walk=<ids in graph order>;<order>|<order>|…` or `walk=<ids in directory-walk order>;err:missing:<id>`
+//!
+//! Second family (`pkg`): the real `cargo-libcnb` executable (built from /repo's working tree on every run) packages a generated
+//! cargo workspace; the order of its `[n/m] Building <id>` progress lines is the order `execute` really packages in.
+//! fields: `pkg` | buildpacks `id>K>dir>dep,dep|…` (K = L libcnb.rs / C composite; dir relative to the workspace root, `.` = root) |
+//!         invocation directories `dir;dir;…` (one run per entry, same workspace, same external package and target directories)
+//! observation: `walk=<ids in directory-walk order>;<order>:<ok|err:kind>|…`
 use cnbv::*;
 use libcnb_data::buildpack::BuildpackId;
 use libcnb_package::buildpack_dependency_graph::{
@@ -10,7 +16,11 @@ use libcnb_package::buildpack_dependency_graph::{
 };
 use libcnb_package::dependency_graph::{CreateDependencyGraphError, GetDependenciesError, get_dependencies};
 use std::fs;
+use std::os::unix::process::CommandExt;
 use std::path::{Path, PathBuf};
+use std::process::{Command, Stdio};
+use std::sync::{OnceLock, RwLock};
+use std::time::{Duration, Instant};
 
 type Node = (String, Vec<String>);
 
@@ -99,6 +109,10 @@ fn write_layout(root: &Path, nodes: &[Node], layout: u64) -> Vec<(PathBuf, Strin
 fn bid(s: &str) -> BuildpackId { s.parse().expect("buildpack id") }
 
 fn run_case(f: &[String]) -> String {
+    if f.first().map(String::as_str) == Some("pkg") {
+        let o = pkg_run_case(f, false);
+        return if o.contains("timeout") { pkg_run_case(f, true) } else { o };
+    }
     let nodes = parse_nodes(&f[0]);
     let ids: Vec<String> = nodes.iter().map(|n| n.0.clone()).collect();
     let selections = parse_roots(&ids, &f[1]);
@@ -192,6 +206,8 @@ fn shared_node(n: usize, adj: &[Vec<usize>]) -> bool {
 
 fn generate(tier: &str, seed: u64, emit: &mut dyn FnMut(Case)) {
     let thorough = tier == "thorough";
+    // 0. the real executable on generated workspaces (first: these are the slow cases, the worker threads pick them up early)
+    generate_pkg(thorough, seed, emit);
     // 1. every labelled DAG on <= nmax nodes, dependency lists ascending and descending, every non-empty ordered root selection
     let nmax = if thorough { 5 } else { 4 };
     let mut gcount = 0u64;
@@ -245,6 +261,301 @@ fn generate(tier: &str, seed: u64, emit: &mut dyn FnMut(Case)) {
     }
     // 3. the empty workspace
     emit(mk_case(&[], "-|ghost", 0, "empty", 2, false, false, 0));
+}
+
+// ------------------------------------------------------------------------------------------------ the `pkg` family: the real executable
+// (the way of building and running the tool is the one of c15.rs; copied, c15 is left alone)
+
+const TOOL_TARGET_DIR: &str = "/verif/harness/target/c15-tool"; // shared with c15: same sources, same build
+const RUN_TIMEOUT: Duration = Duration::from_secs(120);
+
+fn triple() -> String { format!("{}-unknown-linux-gnu", std::env::consts::ARCH) }
+
+/// `cargo build -p libcnb-cargo` from /repo's working tree into a target directory below /verif/harness/target (never below /repo).
+fn tool() -> &'static Result<PathBuf, String> {
+    static TOOL: OnceLock<Result<PathBuf, String>> = OnceLock::new();
+    TOOL.get_or_init(|| {
+        let out = Command::new("cargo")
+            .args(["build", "--offline", "-p", "libcnb-cargo", "--manifest-path", "/repo/Cargo.toml", "--target-dir", TOOL_TARGET_DIR])
+            .env("CARGO_NET_OFFLINE", "true").env_remove("CARGO_TARGET_DIR").env_remove("CI")
+            .stdin(Stdio::null()).output().map_err(|e| format!("cannot spawn cargo: {e}"))?;
+        if !out.status.success() {
+            let err = String::from_utf8_lossy(&out.stderr);
+            eprintln!("c13: building cargo-libcnb from /repo failed:\n{}", &err[err.len().saturating_sub(3000)..]);
+            return Err("tool-build-failed".into());
+        }
+        let p = PathBuf::from(TOOL_TARGET_DIR).join("debug/cargo-libcnb");
+        if p.is_file() { Ok(p) } else { Err("tool-build-failed".into()) }
+    })
+}
+
+/// ordinary runs share this lock, the retry of a timed-out case holds it exclusively
+static ALONE: RwLock<()> = RwLock::new(());
+#[allow(dead_code)]
+enum Guard<'a> { Shared(std::sync::RwLockReadGuard<'a, ()>), Excl(std::sync::RwLockWriteGuard<'a, ()>) }
+
+struct Outcome { status: Option<i32>, stderr: String, timed_out: bool }
+
+fn run_tool_once(tool: &Path, scratch: &Path, cwd: &Path, tag: &str) -> Outcome {
+    let so = scratch.join(format!("{tag}.stdout"));
+    let se = scratch.join(format!("{tag}.stderr"));
+    let mut cmd = Command::new(tool);
+    cmd.args(["libcnb", "package", "--target", &triple(), "--no-cross-compile-assistance", "--package-dir"]).arg(scratch.join("out/packaged"));
+    cmd.current_dir(cwd)
+        .env("CARGO", std::env::var("CARGO").unwrap_or_else(|_| "cargo".into()))
+        .env("CARGO_NET_OFFLINE", "true").env("CARGO_TERM_COLOR", "never")
+        .env("CARGO_TARGET_DIR", scratch.join("out/target"))
+        .env_remove("CARGO_BUILD_TARGET_DIR").env_remove("CARGO_BUILD_TARGET").env_remove("CI")
+        .env_remove("RUSTC_WRAPPER").env_remove("CARGO_MANIFEST_DIR")
+        .stdin(Stdio::null())
+        .stdout(fs::File::create(&so).unwrap()).stderr(fs::File::create(&se).unwrap())
+        .process_group(0);
+    let mut child = match cmd.spawn() { Ok(c) => c, Err(e) => return Outcome { status: None, stderr: format!("spawn: {e}"), timed_out: false } };
+    let deadline = Instant::now() + RUN_TIMEOUT;
+    let mut timed_out = false;
+    let status = loop {
+        match child.try_wait() {
+            Ok(Some(st)) => break st.code(),
+            Ok(None) => {
+                if Instant::now() > deadline {
+                    timed_out = true;
+                    let _ = Command::new("kill").args(["-9", &format!("-{}", child.id())]).status();
+                    let _ = child.kill();
+                    let _ = child.wait();
+                    break None;
+                }
+                std::thread::sleep(Duration::from_millis(10));
+            }
+            Err(_) => break None,
+        }
+    };
+    Outcome { status, stderr: String::from_utf8_lossy(&fs::read(&se).unwrap_or_default()).into_owned(), timed_out }
+}
+
+/// the class of the tool's final error line (never its text)
+fn err_kind(stderr: &str) -> String {
+    let Some(line) = stderr.lines().rev().find(|l| l.starts_with("❌")) else { return "crash".into() };
+    let table = [("No buildpacks found", "no-buildpacks"), ("references unknown dependency", "missing-dep"), ("is not in the dependency graph", "unknown-root"),
+                 ("Ambiguous binary targets", "ambiguous-bins"), ("No binary targets", "no-bins"), ("invalid buildpack id", "invalid-dep-id"),
+                 ("Missing path for buildpack", "missing-buildpack-path"), ("Failed to package buildpack", "package"), ("Failed to find Cargo workspace root", "workspace-root")];
+    for (needle, kind) in table { if line.contains(needle) { return kind.into(); } }
+    eprintln!("c13: unclassified error line: {line}");
+    "other".into()
+}
+
+/// ids in the order of the `📦 [n/m] Building <id> (./<path>)` progress lines: one line per call of `package_buildpack`, printed just before it
+fn building_order(stderr: &str) -> Vec<String> {
+    stderr.lines().filter(|l| l.starts_with("📦 [")).filter_map(|l| l.split_once("] Building ")).filter_map(|(_, rest)| rest.split(' ').next()).map(String::from).collect()
+}
+
+#[derive(Clone)]
+struct PBp { id: String, libcnb: bool, dir: String, deps: Vec<String> }
+
+fn parse_pbps(s: &str) -> Option<Vec<PBp>> {
+    let mut out = vec![];
+    for b in split_list(s, "|") {
+        let p: Vec<&str> = b.split('>').collect();
+        if p.len() != 4 || p[0].is_empty() || p[2].is_empty() { return None; }
+        let libcnb = match p[1] { "L" => true, "C" => false, _ => return None };
+        // directories are plain relative paths
+        if p[2] != "." && p[2].split('/').any(|c| c.is_empty() || c == "." || c == ".." ) { return None; }
+        out.push(PBp { id: p[0].into(), libcnb, dir: p[2].into(), deps: split_list(p[3], ",").iter().map(|d| d.to_string()).collect() });
+    }
+    Some(out)
+}
+fn render_pbps(bps: &[PBp]) -> String { join("|", &bps.iter().map(|b| format!("{}>{}>{}>{}", b.id, if b.libcnb { "L" } else { "C" }, b.dir, join(",", &b.deps))).collect::<Vec<_>>()) }
+
+fn pdir(ws: &Path, rel: &str) -> PathBuf { if rel == "." { ws.to_path_buf() } else { ws.join(rel) } }
+
+/// A real cargo workspace: one dependency-free `fn main() {}` crate per libcnb.rs buildpack (member of the workspace, or its root package),
+/// composite buildpacks as buildpack.toml + package.toml; `libcnb:` dependencies in package.toml for both kinds.
+fn pkg_materialise(ws: &Path, bps: &[PBp]) {
+    fs::create_dir_all(ws).unwrap();
+    let mut members = vec![];
+    let mut root_package = String::new();
+    let mut lock = String::from("# This file is automatically @generated by Cargo.\n# It is not intended for manual editing.\nversion = 4\n");
+    let mut names: Vec<String> = vec![];
+    for (k, bp) in bps.iter().enumerate() {
+        let d = pdir(ws, &bp.dir);
+        fs::create_dir_all(&d).unwrap();
+        if bp.libcnb {
+            let name = format!("p{k}");
+            let package = format!("[package]\nname = \"{name}\"\nversion = \"0.0.0\"\nedition = \"2021\"\n");
+            if bp.dir == "." { root_package = package; } else { members.push(format!("\"{}\"", bp.dir)); fs::write(d.join("Cargo.toml"), package).unwrap(); }
+            fs::create_dir_all(d.join("src")).unwrap();
+            fs::write(d.join("src/main.rs"), "fn main() {}\n").unwrap();
+            fs::write(d.join("buildpack.toml"), component_toml(&bp.id)).unwrap();
+            names.push(name);
+        } else {
+            fs::write(d.join("buildpack.toml"), composite_toml(&bp.id, &bp.deps)).unwrap();
+        }
+        // composites always carry a package.toml; libcnb.rs buildpacks when they declare dependencies (and every other one without)
+        if !bp.libcnb || !bp.deps.is_empty() || k % 2 == 1 {
+            let mut s = String::from("[buildpack]\nuri = \".\"\n");
+            if !bp.libcnb && k % 3 == 0 { s.push_str("\n[[dependencies]]\nuri = \"docker://docker.io/heroku/example:1.2.3\"\n"); }
+            for dep in &bp.deps { s.push_str(&format!("\n[[dependencies]]\nuri = \"libcnb:{dep}\"\n")); }
+            fs::write(d.join("package.toml"), s).unwrap();
+        }
+    }
+    let sep = if root_package.is_empty() { "" } else { "\n" };
+    fs::write(ws.join("Cargo.toml"), format!("{root_package}{sep}[workspace]\nresolver = \"2\"\nmembers = [{}]\n", members.join(", "))).unwrap();
+    // the lock file cargo would write on the first build, so that the workspace does not change under the runs
+    names.sort();
+    for n in names { lock.push_str(&format!("\n[[package]]\nname = \"{n}\"\nversion = \"0.0.0\"\n")); }
+    fs::write(ws.join("Cargo.lock"), lock).unwrap();
+}
+
+fn pkg_walk(ws: &Path, bps: &[PBp]) -> Option<Vec<String>> {
+    let dirs = libcnb_package::find_buildpack_dirs(ws).ok()?;
+    Some(dirs.iter().filter_map(|d| bps.iter().find(|b| pdir(ws, &b.dir) == *d).map(|b| b.id.clone())).collect())
+}
+
+fn pkg_run_case(f: &[String], alone: bool) -> String {
+    if f.len() != 3 { return "bad-case".into(); }
+    let Some(bps) = parse_pbps(&f[1]) else { return "bad-case".into() };
+    let invs = split_list(&f[2], ";");
+    if invs.is_empty() { return "bad-case".into(); }
+    let tool = match tool() { Ok(p) => p.clone(), Err(e) => return e.clone() };
+    let tmp = tempfile::Builder::new().prefix("c13p-").tempdir().unwrap();
+    let scratch = tmp.path().canonicalize().unwrap();
+    let ws = scratch.join("ws");
+    pkg_materialise(&ws, &bps);
+    fs::create_dir_all(scratch.join("out")).unwrap();
+    // the order in which the buildpack directories reach the graph: the same function on the same, unchanged directory tree
+    let Some(walk) = pkg_walk(&ws, &bps) else { return "err:walk".into() };
+    let _guard = if alone { Guard::Excl(ALONE.write().unwrap()) } else { Guard::Shared(ALONE.read().unwrap()) };
+    let mut results = vec![];
+    for (k, inv) in invs.iter().enumerate() {
+        if *inv != "." && inv.split('/').any(|c| c.is_empty() || c == "." || c == "..") { return "bad-case".into(); }
+        let cwd = pdir(&ws, inv);
+        if !cwd.is_dir() { fs::create_dir_all(&cwd).unwrap(); }
+        let o = run_tool_once(&tool, &scratch, &cwd, &format!("run{k}"));
+        let order = join(",", &building_order(&o.stderr));
+        results.push(if o.timed_out { format!("{order}:timeout") } else { match o.status {
+            Some(0) => format!("{order}:ok"),
+            Some(_) => format!("{order}:err:{}", err_kind(&o.stderr)),
+            None => format!("{order}:err:killed"),
+        } });
+    }
+    if pkg_walk(&ws, &bps).as_ref() != Some(&walk) { return "err:walk-unstable".into(); }
+    format!("walk={};{}", join(",", &walk), results.join("|"))
+}
+
+// ------------------------------------------------------------------------------------------------ generation of `pkg` cases
+
+fn pkg_case(bps: &[PBp], invs: &[String], family: &str) -> Case {
+    let n = bps.len();
+    let idx = |id: &str| bps.iter().position(|b| b.id == id);
+    let adj: Vec<Vec<usize>> = bps.iter().map(|b| b.deps.iter().filter_map(|d| idx(d)).collect()).collect();
+    let dangling = bps.iter().any(|b| b.deps.iter().any(|d| idx(d).is_none()));
+    let edge = |from: bool, to: bool| bps.iter().enumerate().any(|(u, b)| b.libcnb == from && adj[u].iter().any(|&w| bps[w].libcnb == to));
+    let mixed = edge(true, false) || edge(false, true);
+    let dep = if acyclic(n, &adj) { depth(n, &adj) } else { 0 };
+    let plain_inv = invs.iter().any(|i| i != "." && !bps.iter().any(|b| &b.dir == i));
+    Case {
+        fields: vec!["pkg".into(), render_pbps(bps), join(";", invs)],
+        tags: vec![("kind".into(), format!("pkg-{}", if dangling { "dangling" } else { family })), ("n".into(), n.to_string()), ("libcnb-rs".into(), bps.iter().filter(|b| b.libcnb).count().to_string()),
+                   ("depth".into(), dep.to_string()), ("edge-L>C".into(), u8::from(edge(true, false)).to_string()), ("edge-C>L".into(), u8::from(edge(false, true)).to_string()),
+                   ("edge-C>C".into(), u8::from(edge(false, false)).to_string()), ("edge-L>L".into(), u8::from(edge(true, true)).to_string()),
+                   ("root-buildpack".into(), bps.iter().find(|b| b.dir == ".").map(|b| if b.libcnb { "L" } else { "C" }).unwrap_or("none").to_string()),
+                   ("invocations".into(), invs.len().to_string()), ("plain-inv".into(), u8::from(plain_inv).to_string())],
+        // non-trivial: a dependency between buildpacks of different kinds, a chain of length >= 2, a shared dependency, or a dangling one
+        nontrivial: dangling || mixed || dep >= 2 || shared_node(n, &adj),
+    }
+}
+
+/// root first, then every buildpack directory
+fn all_invs(bps: &[PBp]) -> Vec<String> {
+    let mut v = vec![".".to_string()];
+    v.extend(bps.iter().filter(|b| b.dir != ".").map(|b| b.dir.clone()));
+    v
+}
+
+fn default_dir(k: usize, libcnb: bool) -> String { if libcnb { format!("bps/{}", NAMES[k]) } else { format!("meta/{}", NAMES[k]) } }
+
+/// hand-made workspaces: every kind of edge, chains and diamonds mixing kinds, buildpacks at the workspace root, unrelated buildpacks, nesting
+fn pkg_fixed() -> Vec<(Vec<PBp>, Vec<String>)> {
+    let b = |id: &str, k: &str, dir: &str, deps: &[&str]| PBp { id: id.into(), libcnb: k == "L", dir: dir.into(), deps: deps.iter().map(|d| d.to_string()).collect() };
+    let shapes: Vec<Vec<PBp>> = vec![
+        // chains alternating kinds
+        vec![b("x/top", "L", "bps/top", &["x/mid"]), b("x/mid", "C", "meta/mid", &["x/low"]), b("x/low", "L", "bps/low", &[])],
+        vec![b("x/top", "C", "meta/top", &["x/mid"]), b("x/mid", "L", "bps/mid", &["x/low"]), b("x/low", "C", "meta/low", &[])],
+        vec![b("top", "L", "a-top", &["mid"]), b("mid", "C", "z-mid", &["low"]), b("low", "C", "m-low", &[])],
+        vec![b("top", "L", "z-top", &["mid"]), b("mid", "L", "a-mid", &["low"]), b("low", "C", "m-low", &[])],
+        // diamonds mixing kinds, plus unrelated buildpacks of both kinds
+        vec![b("d/top", "L", "bps/top", &["d/left", "d/right"]), b("d/left", "C", "meta/left", &["d/base"]), b("d/right", "L", "bps/right", &["d/base"]), b("d/base", "C", "meta/base", &[]),
+             b("solo", "C", "solo", &[]), b("other", "L", "bps/other", &[])],
+        vec![b("d/top", "C", "meta/top", &["d/right", "d/left"]), b("d/left", "L", "bps/left", &["d/base"]), b("d/right", "C", "meta/right", &["d/base", "d/left"]), b("d/base", "L", "bps/base", &[])],
+        // buildpacks in the workspace root
+        vec![b("r/root", "C", ".", &["r/base"]), b("r/base", "C", "meta/base", &["r/leaf"]), b("r/leaf", "L", "bps/leaf", &[])],
+        vec![b("r/root", "L", ".", &["r/base"]), b("r/base", "C", "meta/base", &[]), b("r/user", "C", "meta/user", &["r/root"])],
+        vec![b("r/root", "C", ".", &["r/one", "r/two"]), b("r/one", "L", "bps/one", &[]), b("r/two", "L", "bps/two", &["r/one"])],
+        vec![b("r/root", "L", ".", &[]), b("r/dep", "L", "sub/dep", &["r/root", "r/meta"]), b("r/meta", "C", "sub/meta", &[])],
+        // a composite inside a libcnb.rs buildpack's directory that the latter depends on; two unrelated pairs
+        vec![b("n/outer", "L", "outer", &["n/inner"]), b("n/inner", "C", "outer/inner", &[]), b("n/user", "C", "user", &["n/outer"])],
+        vec![b("p/a", "L", "one/a", &["p/b"]), b("p/b", "C", "one/b", &[]), b("q/a", "C", "two/a", &["q/b"]), b("q/b", "L", "two/b", &[])],
+    ];
+    shapes.into_iter().enumerate().map(|(i, s)| { let mut invs = all_invs(&s); if i % 3 == 0 { invs.push(if s.iter().any(|x| x.dir.starts_with("bps/")) { "bps".into() } else { "src-less/plain".into() }); } (s, invs) }).collect()
+}
+
+fn pkg_random(r: &mut Rng, nmin: u64, nmax: u64) -> (Vec<PBp>, Vec<String>) {
+    let n = r.range(nmin, nmax) as usize;
+    let mut names: Vec<String> = LONG.iter().map(|s| s.to_string()).collect();
+    r.shuffle(&mut names);
+    names.truncate(n);
+    let mut pos: Vec<usize> = (0..n).collect();
+    r.shuffle(&mut pos);
+    let density = r.range(2, 6);
+    let mut adj = vec![vec![]; n];
+    for u in 0..n { for w in 0..n { if pos[w] < pos[u] && r.chance(density, 8) { adj[u].push(w); } } }
+    for a in adj.iter_mut() { r.shuffle(a); }
+    // at most three crates per workspace (compile time)
+    let mut kinds: Vec<bool> = (0..n).map(|_| r.chance(1, 2)).collect();
+    while kinds.iter().filter(|k| **k).count() > 3 { let i = r.below(n as u64) as usize; kinds[i] = false; }
+    let at_root = if r.chance(1, 4) { Some(r.below(n as u64) as usize) } else { None };
+    let mut bps: Vec<PBp> = (0..n).map(|u| {
+        let leaf = format!("d{u}");
+        let dir = if at_root == Some(u) { ".".to_string() } else { match r.below(4) { 0 => leaf, 1 => format!("bps/{leaf}"), 2 => format!("deep/er/{leaf}"), _ => format!("{}/{leaf}", if kinds[u] { "crates" } else { "meta" }) } };
+        PBp { id: names[u].clone(), libcnb: kinds[u], dir, deps: adj[u].iter().map(|&w| names[w].clone()).collect() }
+    }).collect();
+    if r.chance(1, 8) { let u = r.below(n as u64) as usize; let at = r.below(bps[u].deps.len() as u64 + 1) as usize; bps[u].deps.insert(at, "heroku/missing".into()); }
+    r.shuffle(&mut bps);
+    let mut invs = all_invs(&bps);
+    // at most four invocations besides the root
+    while invs.len() > 5 { let i = 1 + r.below(invs.len() as u64 - 1) as usize; invs.remove(i); }
+    if r.chance(1, 4) { invs.push("deep".into()); }
+    (bps, invs)
+}
+
+fn generate_pkg(thorough: bool, seed: u64, emit: &mut dyn FnMut(Case)) {
+    // 1. every labelled DAG on <= 2 (quick) / <= 3 (thorough) buildpacks x every assignment of kinds, invoked from the root and from every buildpack directory;
+    //    thorough: every third workspace a second time with one buildpack in the workspace root
+    let nmax = if thorough { 3 } else { 2 };
+    let mut count = 0usize;
+    for n in 1..=nmax {
+        let pairs: Vec<(usize, usize)> = (0..n).flat_map(|u| (0..n).filter(move |&w| w != u).map(move |w| (u, w))).collect();
+        for mask in 0u32..(1u32 << pairs.len()) {
+            let mut adj = vec![vec![]; n];
+            for (b, &(u, w)) in pairs.iter().enumerate() { if mask >> b & 1 == 1 { adj[u].push(w); } }
+            if !acyclic(n, &adj) { continue; }
+            for kinds in 0u32..(1u32 << n) {
+                let mk = |root: Option<usize>| -> Vec<PBp> { (0..n).map(|u| { let l = kinds >> u & 1 == 1; PBp { id: NAMES[u].into(), libcnb: l, dir: if root == Some(u) { ".".into() } else { default_dir(u, l) }, deps: adj[u].iter().map(|&w| NAMES[w].to_string()).collect() } }).collect() };
+                let bps = mk(None);
+                emit(pkg_case(&bps, &all_invs(&bps), "exh"));
+                count += 1;
+                if thorough && count % 3 == 0 { let bps = mk(Some(count / 3 % n)); emit(pkg_case(&bps, &all_invs(&bps), "exh-root")); }
+            }
+        }
+    }
+    // 2. the hand-made workspaces
+    for (bps, invs) in pkg_fixed() { emit(pkg_case(&bps, &invs, "fixed")); }
+    // 3. seeded random workspaces
+    let samples: u64 = if thorough { 160 } else { 20 };
+    for idx in 0..samples {
+        let mut r = Rng::for_case(seed ^ 0x13_13_13, idx);
+        let (bps, invs) = if thorough && idx % 2 == 0 { pkg_random(&mut r, 4, 4) } else { pkg_random(&mut r, 3, 7) };
+        emit(pkg_case(&bps, &invs, "rnd"));
+    }
 }
 
 fn main() { main_loop_jobs("c13", 12, &generate, &run_case); }
